@@ -102,8 +102,10 @@ CLAIMED = {
              "after every operation the directory listing, the bytes of "
              "untouched files and the content read back through the owning "
              "fileset are compared with a reference model that names files "
-             "with the harness's own formatter. Histories and schedules are "
-             "sampled.",
+             "with the harness's own formatter; the file system seam adds a "
+             "scheduling point before every isdir/makedirs/copy/move and the "
+             "handlers contain yield points, so concurrent writers really "
+             "overlap. Histories and schedules are sampled.",
         note="Equality notions per handler are stated in the evidence "
              "assumptions; NetCDF payloads are flat (pseudo groups sharing a "
              "root dimension fail already in the pinned suite); target "
@@ -159,7 +161,12 @@ CLAIMED = {
              "permutation of the spatial index shuffle is a tape choice. Every "
              "call's pairs, intervals and distances are compared with a brute "
              "force, so a dependence on earlier calls shows as a wrong answer "
-             "of a later call. Histories and inputs are sampled.",
+             "of a later call; histories include spatial-only calls and "
+             "datasets updated in place between calls. The calls run as a "
+             "task of the kernel with concurrent.futures routed to simulated "
+             "pools and, for Collocator(threads >= 2) on the binned path, "
+             "line-level pre-emption inside pool workers. Histories and "
+             "inputs are sampled.",
         note="Inputs carry unique dimension labels (the documented contract; "
              "unlabelled dimensions are silently mis-selected by "
              "_prepare_data - recorded as an observation in DESIGN.md); border "
@@ -201,7 +208,11 @@ CLAIMED = {
              "populated cache. Oracles: consecutive cell centres, cover with "
              "< 1 cell overhang, every cell from the one right pixel, "
              "download iff miss and at most once, a failed download surfaces "
-             "and a retry succeeds. Rectangles and histories are sampled.",
+             "and a retry succeeds, a caller editing a returned tile does not "
+             "change later answers. Requests run as a kernel task with "
+             "concurrent.futures routed to simulated pools; module/class "
+             "state of typhon.topography is reset between runs. Rectangles "
+             "and histories are sampled.",
         note="Overhangs of exactly one cell +-1e-9 deg are border cases (float "
              "image of an edge on a grid line); faults during extractall are "
              "not injected; in configuration (a) get_tile/download_tile are "
